@@ -18,7 +18,9 @@ import (
 	"fmt"
 	"go/ast"
 	"go/parser"
+	"go/printer"
 	"go/token"
+	"io"
 	"os"
 	"path/filepath"
 	"reflect"
@@ -146,4 +148,63 @@ func typeText(e ast.Expr) string {
 		return "*" + typeText(t.X)
 	}
 	return "?"
+}
+
+// kind "ifconds" (C19): the decisions of a function as source text, in source order (pre-order):
+// every `if` (with its init statement, "init; cond") and every case expression list of a switch.
+//
+//	{"kind": "ifconds", "file": "pack.go", "func": "packManifestV1_1", "coq": "conds_packManifestV1_1"}
+//
+// emits   Definition conds_packManifestV1_1 : list str := [ <bytes of "artifactType == ..."> ; ... ].
+//
+// A hand-written model that mirrors the function states the expected list as a lemma, so an edited
+// condition (a comma-ok lookup replaced by a comparison, a dropped conjunct, a changed bound) breaks
+// the proof layer even where the differential run would need an unusual input to notice.
+func init() {
+	kinds["ifconds"] = func(x *Ctx, it Item) {
+		fd := findFunc(x.File(it.File), it.Recv, it.Func)
+		what := it.File + ":" + it.Func
+		if fd == nil || fd.Body == nil {
+			fail("%s: function not found", what)
+		}
+		text := func(n ast.Node) string {
+			var b strings.Builder
+			if err := printerFprint(&b, x, n); err != nil {
+				fail("%s: %v", what, err)
+			}
+			return strings.Join(strings.Fields(b.String()), " ")
+		}
+		var conds []string
+		ast.Inspect(fd.Body, func(n ast.Node) bool {
+			switch s := n.(type) {
+			case *ast.IfStmt:
+				c := text(s.Cond)
+				if s.Init != nil {
+					c = text(s.Init) + "; " + c
+				}
+				conds = append(conds, c)
+			case *ast.CaseClause:
+				if len(s.List) == 0 {
+					conds = append(conds, "default")
+				} else {
+					var ps []string
+					for _, e := range s.List {
+						ps = append(ps, text(e))
+					}
+					conds = append(conds, "case "+strings.Join(ps, ", "))
+				}
+			}
+			return true
+		})
+		var parts []string
+		for _, c := range conds {
+			parts = append(parts, coqStr(c))
+		}
+		x.Printf("(* %s: decisions in source order: %s *)\n", what, strings.ReplaceAll(strings.ReplaceAll(strings.Join(conds, " | "), "*)", "* )"), "(*", "( *"))
+		x.Printf("Definition %s : list str :=\n  [%s].\n\n", coqName(it), strings.Join(parts, ";\n   "))
+	}
+}
+
+func printerFprint(w io.Writer, x *Ctx, n ast.Node) error {
+	return printer.Fprint(w, x.Fset(), n)
 }
